@@ -528,3 +528,16 @@ Print Assumptions C17_ruleset_selection_in_set_order_refuted.
 
 Example C17_ex_ruleset_selection : select_rules 6 [4; 1; 4; 2] = [1; 2; 4].
 Proof. vm_compute. reflexivity. Qed.
+
+
+(* ---- SecMetQualifier.add_domains (sec_met_domain qualifier, domain_ids, the ADDITIONAL gene functions derived from it):
+   over any history of calls the stored order is the order of first mention - the history of calls gives what ONE call with
+   the batches concatenated gives; the set unique_domain_ids is only asked for membership, so no set order can show.  (A
+   seeded change of round 6 appended the new names of a later call in set order.) *)
+Theorem C17_add_domains_history_is_order_of_mention : forall batches,
+  add_domains_history batches = add_domains [] (concat batches).
+Proof. intros batches. exact (add_domains_history_concat batches []). Qed.
+Print Assumptions C17_add_domains_history_is_order_of_mention.
+
+Example C17_ex_add_domains : add_domains_history [[5; 2; 5]; [2; 9; 1]; [1; 7]] = [5; 2; 9; 1; 7].
+Proof. vm_compute. reflexivity. Qed.
